@@ -153,6 +153,13 @@ def explore(ctx):
                 for r_ in rng.sample(range(len(cat)), rng.randint(1, max(1, len(cat) // 3))):
                     cat[rng.choice(['x_cen', 'y_cen'])][r_] = np.nan
                 info['nan_rows'] = True
+            if len(cat) >= 2 and rng.random() < 0.3:
+                # a catalog the user re-ordered (sorted by a column, or reversed): rows still name their structures
+                if rng.random() < 0.5:
+                    cat = cat[::-1]
+                else:
+                    cat.sort('x_cen')
+                info['catalog_reordered'] = [int(x) for x in cat['_idx']]
             v = make_viewer(d)
             # the i-th drawn segment is a segment of the i-th listed structure (a pick event carries i): the vertical
             # one at the structure's position from its base to its height - also when that is a single point -, the
